@@ -280,21 +280,28 @@ class e2e_glyf_outlines:
 # ---------------------------------------------------------------------------- OT-SVG
 
 
-def _add_default_paint_donor(rng, glyphs):
+def _add_default_paint_donor(rng, glyphs, cross=None):
     """a shape with SVG's default paint (opaque black: no fill / opacity attribute at all)
     followed, in the same glyph, by copies that all share one other paint"""
     g = rng.choice(glyphs)
     x, y, w, h = g.viewbox
     ww, hh = max(6, int(w * 0.18)), max(6, int(h * 0.18))
     x0, y0 = x + int(w * 0.05), y + int(h * 0.05)
-    pts = [(x0, y0), (x0 + ww, y0), (x0 + ww, y0 + hh), (x0, y0 + hh)]
+    # an irregular pentagon: no other generated shape (rectangles, triangles, quads) is an
+    # affine image of it, so the copies below reuse exactly this donor
+    pts = [(x0, y0), (x0 + ww, y0 + 1), (x0 + ww + 2, y0 + hh - 2), (x0 + ww // 2, y0 + hh), (x0 - 1, y0 + hh // 2)]
     g.items.insert(0, e2e.Shape(pts, e2e.Solid((0, 0, 0), 1.0), 1.0))
     fill = rng.choice([e2e.Solid(e2e._rgb(rng), 1.0), e2e.Solid((0, 0, 0), 1.0)])
     op = 1.0 if fill.rgb != (0, 0, 0) and rng.random() < 0.5 else 0.5
     # the copies live in the same glyph (the donor stays in place) or in another glyph of the
     # same viewBox (the donor moves to <defs> and is itself drawn through a bare <use>)
     others = [o for o in glyphs if o is not g and o.viewbox == g.viewbox]
-    host = rng.choice(others) if others and rng.random() < 0.5 else g
+    if cross is None:
+        cross = bool(others) and rng.random() < 0.5
+    if cross and not others:
+        others = [e2e.GlyphSpec(g.viewbox, [e2e.Shape(e2e._poly(rng, g.viewbox), e2e.Solid(e2e._rgb(rng)), 1.0)], (0xE400 + len(glyphs),))]
+        glyphs.append(others[0])
+    host = rng.choice(others) if cross else g
     for k in range(rng.randint(1, 2)):
         dx, dy = (k + 1) * (ww + 3), (k + 1) * 2
         host.items.append(e2e.Shape([(px + dx, py + dy) for px, py in pts], e2e.Solid(fill.rgb, 1.0), op))
@@ -318,19 +325,25 @@ def _add_same_gradient_in_other_documents(rng, glyphs):
     glyphs.append(e2e.GlyphSpec(vb, [e2e.Shape(pent, other, 1.0), e2e.Shape(quad, mk(), 1.0)], (base + 1,)))
 
 
-def _gen_otsvg(rng):
+def _gen_otsvg(rng, i=None):
+    # cases 0..5 of every 8 hold one fixed scenario each (on a picosvg build); the rest is random
+    forced = {0: "donor-same", 1: "donor-cross", 2: "grad-docs", 3: "sibling", 4: "prefix"}.get(i % 8) if i is not None else None
     fmt = rng.choice(["picosvg", "picosvg", "picosvgz", "untouchedsvg", "untouchedsvgz"])
+    if forced:
+        fmt = rng.choice(["picosvg", "picosvg", "picosvgz"])
     over_ = _cfg_variants(rng, fmt)
-    if rng.random() < 0.2:
+    if not forced and rng.random() < 0.2:
         over_["reuse_tolerance"] = -1
-    glyphs = e2e.gen_glyphset(rng)
-    if rng.random() < 0.25:
+    glyphs = e2e.gen_glyphset(rng, n_glyphs=rng.randint(2, 4) if forced else None)
+    if forced == "sibling" or rng.random() < 0.2:
         _add_sibling_radials(rng, glyphs)
-    if rng.random() < 0.25:
+    if forced in ("donor-same", "donor-cross"):
+        _add_default_paint_donor(rng, glyphs, cross=forced == "donor-cross")
+    elif rng.random() < 0.15:
         _add_default_paint_donor(rng, glyphs)
-    if rng.random() < 0.2:
+    if forced == "grad-docs" or rng.random() < 0.15:
         _add_same_gradient_in_other_documents(rng, glyphs)
-    if rng.random() < 0.35:
+    if forced == "prefix" or rng.random() < 0.3:
         # glyph names that are prefixes of one another (a sequence and its leading
         # codepoint), in either input order
         seqs = rng.choice([[(0x1F44B, 0x1F3FB), (0x1F44B,)], [(0x1F468,), (0x1F468, 0x200D, 0x1F469)], [(0x41, 0x42), (0x41,), (0x41, 0x42, 0x43)]])
@@ -732,8 +745,15 @@ def _gen_copies(rng):
     across = rng.random() < 0.5
     glyphs = []
     if across:
+        # glyph names need not sort like the input order (the first input may be named last)
+        cps = [(0xE000 + i,) for i in range(len(copies))]
+        order = rng.choice(["input", "reversed", "mixed"])
+        if order == "reversed":
+            cps.reverse()
+        elif order == "mixed":
+            cps = [(0x23, 0x20E3), (0x1F170,), (0x41,), (0x1F171,)][: len(copies)]
         for i, pts in enumerate(copies):
-            glyphs.append(e2e.GlyphSpec(vb, [e2e.Shape(pts, e2e.Solid(e2e._rgb(rng)))], (0xE000 + i,)))
+            glyphs.append(e2e.GlyphSpec(vb, [e2e.Shape(pts, e2e.Solid(e2e._rgb(rng)))], cps[i]))
     else:
         glyphs.append(e2e.GlyphSpec(vb, [e2e.Shape(pts, e2e.Solid(e2e._rgb(rng))) for pts in copies], (0xE000,)))
     fmt = rng.choice(["glyf_colr_1", "picosvg"])
